@@ -547,6 +547,30 @@ def feature_build(fea):
     return h.hexdigest()
 for fea in feas:
     run("fea:" + fea, lambda fea=fea: feature_build(fea))
+# generated feature text: places where a builder collects glyphs from several rules before numbering
+# them (aalt over contextual rules giving one glyph several alternates, aalt over single + alternate
+# lookups, glyph classes written in non-alphabetical order, many mark classes)
+from fontTools.feaLib.builder import addOpenTypeFeaturesFromString
+def feature_text_build(text):
+    f = TTFont(); f.setGlyphOrder(list(GLYPHS)); addOpenTypeFeaturesFromString(f, text)
+    h = hashlib.sha256()
+    for tag in sorted(f.keys()):
+        if tag != "GlyphOrder":
+            h.update(tag.encode()); h.update(f.getTableData(tag))
+    return h.hexdigest()
+_alts = ["a.alt1", "a.alt2", "a.alt3", "a.end", "A.swash", "B.swash", "C.swash", "D.swash"]
+_t = "".join("lookup ALT%d { sub a by %s; } ALT%d;\n" % (i, g, i) for i, g in enumerate(_alts))
+_t += "feature calt {\n" + "".join("    sub %s a' lookup ALT%d;\n" % (" ".join(["b"] * (i + 1)), i) for i in range(len(_alts))) + "} calt;\n"
+_t += "feature aalt { feature calt; } aalt;\n"
+run("fea-gen:aalt-over-chain-context", lambda: feature_text_build(_t))
+_t2 = "feature salt { sub a from [a.alt3 a.alt1 a.end a.alt2]; sub d by d.alt; sub e from [e.end e.begin e.mid]; } salt;\n"
+_t2 += "feature ss01 { sub a by A.swash; sub e by E.swash; sub d by D.swash; } ss01;\n"
+_t2 += "feature aalt { feature ss01; feature salt; sub a by a.alt2; } aalt;\n"
+run("fea-gen:aalt-over-single-and-alternate", lambda: feature_text_build(_t2))
+_t3 = "@z = [z.end s.end n.end m.begin e.begin d.mid c.mid b.alt a.end];\nfeature kern { pos @z [T_h f_f c_t c_h] -30; pos [s_t f_i c_k] @z 12; } kern;\n"
+_t3 += "".join("markClass %s <anchor %d 10> @MC%d;\n" % (g, i, i % 5) for i, g in enumerate(["grave", "acute", "dieresis", "macron", "circumflex", "cedilla", "ogonek", "caron", "breve"]))
+_t3 += "feature mark { pos base [a e o u i] <anchor 1 1> mark @MC0 <anchor 2 2> mark @MC3 <anchor 3 3> mark @MC1 <anchor 4 4> mark @MC4 <anchor 5 5> mark @MC2; } mark;\n"
+run("fea-gen:classes-and-mark-classes", lambda: feature_text_build(_t3))
 # subsetting
 from fontTools import subset
 def do_subset(rel, unicodes=None, glyphs=None, **opts):
